@@ -158,6 +158,12 @@ type client struct {
 	connM sync.Mutex
 	conn  net.Conn
 
+	// writeM serializes writers so that the buffers of one request are never
+	// interleaved with another request's. net.Buffers.WriteTo is a single
+	// atomic writev only on kernel sockets; on any other net.Conn (e.g. one
+	// returned by a custom dialer) it is one Write call per buffer.
+	writeM sync.Mutex
+
 	// Address of the RegionServer.
 	addr  string
 	ctype ClientType
@@ -658,12 +664,14 @@ func (c *client) send(rpc hrpc.Call) (uint32, error) {
 	}
 
 	rpcSize.WithLabelValues(c.Addr()).Observe(float64(uint32(len(b)) + cellblocksLen))
+	c.writeM.Lock()
 	if cellblocks != nil {
 		bfs := append(net.Buffers{b}, cellblocks...)
 		_, err = bfs.WriteTo(c.conn)
 	} else {
 		err = c.write(b)
 	}
+	c.writeM.Unlock()
 	if err != nil {
 		return id, ServerError{err}
 	}
